@@ -701,27 +701,13 @@ HANDMADE = {
 
 def gen_enumerated(depth, sample=None, rng=None):
     """All op sequences of the given depth over two Channel objects behind a third registered one
-    (so that removing either exercises swap-and-pop), clean ones only (the findings have their own
-    witnesses)."""
+    (so that removing either exercises swap-and-pop); re-registration and redundant disables (the
+    patterns of the two fixed findings) are ordinary histories."""
     prefix = ["open 0 P", "open 1 P", "open 2 E", "NEW 2 2", "NEW 0 0", "NEW 1 1", "ER 2", "ER 0", "EW 1", "pc 0", "pc 1", "wr 2", "NEW 3 2"]
     al = [k + " " + str(c) for k in ("ER", "DR", "EW", "DW", "DA", "RM") for c in (0, 1)] + ["ER 3", "POLL"]
     n = 0
     for seq in itertools.product(al, repeat=depth):
         if sample is not None and rng.random() > sample:
-            continue
-        # clean histories only
-        sp = Spec()
-        ok = True
-        for op in prefix + list(seq):
-            w = op.split()
-            if w[0] in ENVOPS or w[0] == "POLL":
-                continue
-            if sp.guard(w):
-                if sp.finding_flags(w, True):
-                    ok = False
-                    break
-                sp.step(w)
-        if not ok:
             continue
         n += 1
         yield mkcase("e%d_%d" % (depth, n), prefix + list(seq) + ["POLL"], "enumerated-depth-%d" % depth)
@@ -752,8 +738,8 @@ def gen_random(rng, count, ri, wild, prefix="r", maxops=40, loopy=0.3):
                     return False
             elif w[0] in ("NEW", "DEL", "RM") or w[0] in UPD:
                 if sp.guard(w):
-                    if not wild and sp.finding_flags(w, True):    # F-1 is fixed: re-registration is an ordinary history
-                        return False
+                    # F-1 and F-14 are fixed: re-registration and redundant disables are ordinary histories;
+                    # "wild" histories only differ by being generated after the ordinary ones
                     sp.step(w)
             ops.append(op)
             hist[w[0]] = hist.get(w[0], 0) + 1
@@ -983,12 +969,6 @@ def run(chk, replay=None):
     chk.cov["phase_s"] = {"generate": round(t1 - chk.t0 - pr["wall_s"], 1), "impl": round(t2 - t1, 1), "model": round(t3 - t2, 1)}
 
     known = {k["key"]: k["text"] for k in vlib.known_findings() if k["property"] == "C09"}
-    if os.environ.get("VERIF_C09_ASSUME_KNOWN"):
-        # mutation testing before the coordinator has recorded/fixed the findings: treat the two proposed
-        # keys as listed so that only *other* violations are printed.  Never set by a registered command.
-        known.setdefault(KEY_F1, "(assumed) PollPoller re-register after remove")
-        known.setdefault(KEY_F14, "(assumed) empty-interest registration")
-        chk.notes.append("VERIF_C09_ASSUME_KNOWN set: proposed finding keys treated as known")
     corr_bad, oracle_bad, known_hits = [], [], {}
     sigs = set()
     hist = {}
@@ -1096,7 +1076,7 @@ def run(chk, replay=None):
             li, lm, crash = run_one(small)
             fs = oracle(small, li, crash, ri) if li else []
             msg2 = fs[0][1] if fs else msg
-            tag = ("instance of documented finding pattern %s (not in KNOWN_FINDINGS.txt)" % ",".join(flags)) if flags else "no documented finding pattern"
+            tag = ("matches the signature of the FIXED finding %s -- the repair is missing or broken in this tree" % ",".join(flags)) if flags else "no documented finding pattern"
             p = chk.write_replay("oracle_%s.case" % c.cid, "# %s\n# %s\n" % (msg2.replace("\n", " "), tag) + small.text())
             chk.violation(p, "C09 fails on the implementation: %s [%s; %d failing cases in this group]" % (msg2, tag, len(lst)))
     if corr_bad or not pr["ok"]:
